@@ -272,6 +272,20 @@ example : ∃ s s', run ⟨false, 1, none, false, 1⟩ (init ⟨false, 1, none, 
     [.start 0, .chk 0 1, .acq 0, .tokOk 0, .reqAdd 0] = some s ∧ step ⟨false, 1, none, false, 1⟩ s (.shoot 0 0) = some s' :=
   ⟨_, _, rfl, rfl⟩
 
+-- `C03_no_use_after_release`, second disjunct: a Release that is enabled after a run
+example : ∃ s s', run ⟨false, 1, none, true, 1⟩ (init ⟨false, 1, none, true, 1⟩)
+    [.start 0, .chk 0 1, .acq 0, .tokOk 0, .discard 0] = some s ∧ step ⟨false, 1, none, true, 1⟩ s (.rel 0 0) = some s' :=
+  ⟨_, _, rfl, rfl⟩
+
+-- `C03_metrics_engine`: an engine with two pools (one fires once, one discards once): 1 request, 1 response, 1 fired
+example : ∃ s1 s2,
+    run ⟨false, 1, none, false, 1⟩ (init ⟨false, 1, none, false, 1⟩)
+      [.start 0, .chk 0 1, .acq 0, .tokOk 0, .reqAdd 0, .shoot 0 0, .respAdd 0, .rel 0 0, .chk 0 0] = some s1 ∧
+    run ⟨true, 1, some 1, true, 1⟩ (init ⟨true, 1, some 1, true, 1⟩)
+      [.start 0, .chk 0 1, .acq 0, .tokOk 0, .discard 0, .rel 0 0, .chk 0 0] = some s2 ∧
+    s1.terminal = true ∧ s2.terminal = true ∧ s1.request + s2.request = 1 ∧ s1.fired + s2.fired = 1 := by
+  refine ⟨_, _, rfl, rfl, by decide, by decide, by decide, by decide⟩
+
 -- the transition system itself does not forbid a Shoot of a released item: from a (non-reachable) state where the
 -- local variable still names a released item the event is enabled and `badUse` is set — so `C03_never_bad_use` is
 -- a statement about reachable states, not about the shape of `step`
